@@ -40,6 +40,8 @@ class MergeAbort(Exception):
     pass
 
 
+STD_STRUCTS = {'Range': ['start', 'end'], 'RangeInclusive': ['start', 'end', 'exhausted'], 'Pin': ['pointer']}
+
 STD_ENUMS = {
     'Option': [('None', 0, []), ('Some', 1, ['0'])],
     'Result': [('Ok', 0, ['0']), ('Err', 1, ['0'])],
@@ -1083,8 +1085,8 @@ class Ctx:
             v = self.place_cell(f, L, rv[1]).v
             if isinstance(v, Enum):
                 return Int(64, True, v.variant)
-            if isinstance(v, Struct) and v.name.startswith('{coroutine'):
-                return v.fields[0].v
+            if isinstance(v, Coroutine):
+                return Int(32, False, v.state)
             raise Unsupported('discriminant of %r in %s' % (v, f.name))
         if k == 'len':
             return self.len_of(self.place_cell(f, L, rv[1]).v)
@@ -1287,9 +1289,14 @@ class Ctx:
         name = segs[-1]
         if path.startswith('{'):
             # closure / coroutine
-            if kind == 'struct':
-                return Struct(path, [Cell(self.operand(f, L, o)) for _, o in items])
-            return Struct(path, [])
+            vals = [Cell(self.operand(f, L, o)) for _, o in items] if kind == 'struct' else []
+            if path.startswith('{coroutine@'):
+                # the body of an `async fn` F is F::{closure#0}
+                body = self.mod.funcs.get(f.name + '::{closure#0}')
+                if body is None:
+                    raise Unsupported('coroutine body of %s not found' % f.name)
+                return Coroutine(path, vals, body)
+            return Struct(path, vals)
         if kind == 'struct':
             fields = self.src.struct_fields(p)
             if fields is not None and len(segs) < 2 or (fields is not None and self.enum_variants('::'.join(segs[:-1])) is None):
@@ -1303,6 +1310,9 @@ class Ctx:
                     if vn == name:
                         vals = {n: self.operand(f, L, o) for n, o in items}
                         return Enum(segs[-2], disc, vn, [Cell(vals[n]) for n in fl])
+            if name in STD_STRUCTS:
+                vals = {n: self.operand(f, L, o) for n, o in items}
+                return Struct(name, [Cell(vals[n]) for n in STD_STRUCTS[name]])
             raise Unsupported('unknown struct aggregate %s in %s' % (path, f.name))
         if kind in ('tuplestruct', 'unit'):
             vals = [self.operand(f, L, o) for o in items]
@@ -1322,6 +1332,9 @@ class Ctx:
         c = self.place_cell(f, L, pl, create=True)
         v = c.v
         ty = f.locals.get(pl.local) if not pl.projs else None
+        if isinstance(v, Coroutine):
+            v.state = n
+            return
         if isinstance(v, Enum):
             ev = self.enum_variants(v.name)
             for vn, disc, fl in ev or []:
@@ -1416,6 +1429,14 @@ class Ctx:
             ci = parse_callee(fv.path)
             return self.dispatch(None, ci, ('path', fv.path), list(argv), None)
         raise Unsupported('call of value %r' % (fv,))
+
+    def poll(self, co):
+        """poll a coroutine value once: returns the Poll enum of its body"""
+        if not isinstance(co, Coroutine):
+            raise Unsupported('poll of %r' % (co,))
+        body = self.mod.parse_body(co.body)
+        pin = Struct('Pin', [Cell(Ref(Cell(co), True))])
+        return self.exec_fn(body, [pin, Ref(Cell(Opaque('task-context')), True)])
 
     def operand_value_callee(self, f, callee):
         raise Unsupported('indirect call %r in %s' % (callee, f.name))
